@@ -5,6 +5,16 @@ From Verif Require Import Word Bits Fields DqFields Conc Gen_consts Gen_dqstate 
 Import ListNotations.
 Local Open Scope Z_scope.
 
+(* reduce projections of updated states only (a plain cbn may start computing bit operations on big constants) *)
+Ltac gcbn :=
+  cbn [st lst rootq rq pcs woken grant lockh bmode dw holders tokh nextid kinds pushed popped started finished
+       set_st set_lst set_rootq set_rq set_pcs set_woken set_grant set_lockh set_bmode set_dw set_holders set_tokh
+       set_nextid set_kinds set_pushed set_popped set_started set_finished set_pc new_item push_item].
+Tactic Notation "gcbn" "in" hyp(H) :=
+  cbn [st lst rootq rq pcs woken grant lockh bmode dw holders tokh nextid kinds pushed popped started finished
+       set_st set_lst set_rootq set_rq set_pcs set_woken set_grant set_lockh set_bmode set_dw set_holders set_tokh
+       set_nextid set_kinds set_pushed set_popped set_started set_finished set_pc new_item push_item] in H.
+
 (* ---- lists ---- *)
 Lemma remove_z_length t l : In t l -> Z.of_nat (length (remove_z t l)) = Z.of_nat (length l) - 1.
 Proof.
@@ -98,7 +108,7 @@ Proof.
   split; [exact HW|]. split.
   - exists r. destruct G. constructor; unfold U, head_bar in *; rewrite ?E1, ?E2, ?E3, ?E4, ?E5, ?E6, ?E7, ?E8, ?E9, ?E10, ?E11; assumption.
   - intros t. destruct (T t) as [T1 T2 T3 T4 T5 T6].
-    constructor; rewrite ?E5, ?E6, ?E7, ?E10, ?E11; [exact T1|exact T2|exact T3|exact T4|exact T5|].
+    constructor; rewrite ?E5, ?E6, ?E7, ?E8, ?E10, ?E11; [exact T1|exact T2|exact T3|exact T4|exact T5|].
     intros H. apply (same1_pcinv W s s1 _ S). auto.
 Qed.
 
@@ -110,11 +120,13 @@ Lemma others_ok W s s' t :
   (forall u, u <> t -> (lockh s' = Some u <-> lockh s = Some u)) ->
   (forall u, u <> t -> (tokh s' = Some u <-> tokh s = Some u)) ->
   (forall u, u <> t -> owns (pcs s u) = true -> pcinv W s (pcs s u) -> pcinv W s' (pcs s u)) ->
+  (forall u, u <> t -> grant s u = GOwner -> bmode s' = bmode s) ->
   forall u, u <> t -> thread_inv W s u -> thread_inv W s' u.
 Proof.
-  intros Hp Hg Hh Hl Hk Hi u Ne [T1 T2 T3 T4 T5 T6].
+  intros Hp Hg Hh Hl Hk Hi Hb u Ne [T1 T2 T3 T4 T5 T6].
   constructor; rewrite ?(Hp u Ne), ?(Hg u Ne), ?(Hh u Ne), ?(Hl u Ne), ?(Hk u Ne); try assumption.
-  intros H. apply Hi; auto.
+  - intros X. rewrite (Hb u Ne X). auto.
+  - intros H. apply Hi; auto.
 Qed.
 
 (* what a step of a thread that does not own the lock may do to the owner's knowledge *)
@@ -145,7 +157,7 @@ Qed.
 Lemma pcinv_setpc W s t p' q :
   (waitpc (pcs s t) = true -> waitpc p' = true) -> pcinv W s q -> pcinv W (set_pc s t p') q.
 Proof.
-  intros Hw. destruct q; cbn [pcinv]; unfold opform, head_nb, head_bar, head_wt, U, pb; cbn; try tauto.
+  intros Hw. destruct q; cbn [pcinv]; unfold opform, head_nb, head_bar, head_wt, U, pb; gcbn; try tauto.
   intros (H1 & H2 & H3 & H4 & H5 & H6). repeat (split; [assumption|]). split; [|exact H6].
   unfold upd. destruct (Z.eqb_spec u t) as [->|]; auto.
 Qed.
@@ -157,19 +169,27 @@ Lemma pc_only W s t p' : Inv W s ->
   Inv W (set_pc s t p').
 Proof.
   intros (HW & (r & G) & T) Eh Eo Ek Hw Hpc. split; [exact HW|]. split.
-  - exists r. destruct G. constructor; cbn; try assumption.
-    intros x Hx Nx. destruct (g_wt0 x Hx Nx) as (V & Gn & Wp). repeat split; try assumption.
+  - exists r. pose proof (g_wt _ _ _ G) as Gwt. destruct G. constructor; gcbn; try assumption.
+    intros x Hx Nx. destruct (Gwt x Hx Nx) as (V & Gn & Wp). split; [exact V|]. split; [exact Gn|].
     unfold upd. destruct (Z.eqb_spec (i_wt x) t) as [E|]; [rewrite E in Wp; auto | exact Wp].
   - intros u. destruct (Z.eq_dec u t) as [->|Ne].
-    + destruct (T t) as [T1 T2 T3 T4 T5 T6]. constructor; cbn; rewrite upd_same.
+    + destruct (T t) as [T1 T2 T3 T4 T5 T6]. constructor; gcbn; rewrite ?upd_same.
       * rewrite Eh. exact T1.
       * rewrite Eo. exact T2.
       * rewrite Ek. exact T3.
       * intros H. auto.
       * rewrite Eo. exact T5.
       * intros H. apply pcinv_setpc; auto.
-    + apply (others_ok W s (set_pc s t p') t); cbn; try (intros; rewrite ?upd_other by assumption; tauto); auto.
-      intros v Nv _ Hv. apply pcinv_setpc; auto.
+    + apply (others_ok W s (set_pc s t p') t); gcbn.
+      * intros v Nv. apply upd_other; exact Nv.
+      * reflexivity.
+      * reflexivity.
+      * reflexivity.
+      * reflexivity.
+      * intros v Nv _ Hv. apply pcinv_setpc; auto.
+      * reflexivity.
+      * exact Ne.
+      * apply T.
 Qed.
 
 (* ---- the initial state ---- *)
@@ -177,15 +197,20 @@ Lemma Inv_init W : 2 <= W <= 4094 -> Inv W (init_state W).
 Proof.
   intros HW. split; [exact HW|]. split.
   - exists (mk 0 0 0 0 0 1 0 0 0 (4096 - W) 0 0). unfold init_state.
-    constructor; unfold U, head_bar; cbn; try (intros; discriminate); try (intros; contradiction); try lia; try tauto.
-    + rewrite enc_linear. unfold INTERVAL, ROLE_BASE_ANON. cbn. lia.
+    constructor; unfold U, head_bar; gcbn; cbn [mk f_owner f_tr f_enq f_mq f_ov f_role f_em f_d f_pb f_wq f_ib f_hi length];
+      try reflexivity; try (intros; discriminate); try (intros; contradiction); try lia.
+    + rewrite enc_linear. unfold INTERVAL, ROLE_BASE_ANON, mk.
+      cbn [f_owner f_tr f_enq f_mq f_ov f_role f_em f_d f_pb f_wq f_ib f_hi]. lia.
     + wf_mk.
-    + split; [lia|]. intros; split; reflexivity.
     + constructor.
     + constructor.
-  - intros t. constructor; cbn; try tauto; try (split; [tauto|intros [?|?]; discriminate]); try (split; intros; discriminate);
-      try discriminate.
+  - intros t. constructor; unfold init_state; gcbn; cbn [holds owns toks waitpc In].
+    + split; [intros []|intros [?|?]; discriminate].
+    + split; [discriminate|intros [?|?]; discriminate].
+    + split; discriminate.
     + intros H. exfalso. apply H. reflexivity.
+    + discriminate.
+    + discriminate.
 Qed.
 
 (* ---- facts read off the invariant ---- *)
@@ -202,17 +227,27 @@ Ltac inv_pc HI t Hpc :=
   let Ho := fresh "Ho" in let Hi := fresh "Hi" in
   destruct (owner_pc _ _ t HI) as [Ho Hi]; [rewrite Hpc; reflexivity|]; rewrite Hpc in Hi; cbn [pcinv] in Hi.
 
+(* apply pc_only: the classification side conditions are decided by computation, the owner's knowledge is left *)
+Ltac pc_only_tac HI Hpc :=
+  apply pc_only;
+  [ exact HI
+  | rewrite Hpc; reflexivity
+  | rewrite Hpc; reflexivity
+  | rewrite Hpc; reflexivity
+  | rewrite Hpc; cbn [waitpc ret_waits after]; try (intros X; exact X); try discriminate; auto
+  | try (intros X; discriminate X); intros _; cbn [pcinv] ].
+
 (* ---- steps that only move the program point ---- *)
 Lemma step_S_tail W s t : Inv W s -> pcs s t = S_tail -> forall tl, Inv W (set_pc s t (S_rsv tl)).
-Proof. intros HI Hpc tl. apply pc_only; rewrite ?Hpc; try reflexivity; try discriminate; auto. Qed.
+Proof. intros HI Hpc tl. pc_only_tac HI Hpc. Qed.
 
 Lemma step_A_tail W s t b q ovr p' : Inv W s -> pcs s t = A_tail b q ovr ->
   (p' = A_acq q ovr \/ p' = A_xchg b q ovr) -> Inv W (set_pc s t p').
-Proof. intros HI Hpc [->| ->]; apply pc_only; rewrite ?Hpc; try reflexivity; try discriminate; auto. Qed.
+Proof. intros HI Hpc [->| ->]; pc_only_tac HI Hpc. Qed.
 
 Lemma step_A_probe W s t q fl p' : Inv W s -> pcs s t = A_probe q fl ->
   (p' = Idle \/ p' = A_wake q fl) -> Inv W (set_pc s t p').
-Proof. intros HI Hpc [->| ->]; apply pc_only; rewrite ?Hpc; try reflexivity; try discriminate; auto. Qed.
+Proof. intros HI Hpc [->| ->]; pc_only_tac HI Hpc. Qed.
 
 Lemma step_BC_tail W s t k : Inv W s -> pcs s t = BC_tail k ->
   Inv W (set_pc s t (match lst s with
@@ -221,9 +256,13 @@ Lemma step_BC_tail W s t k : Inv W s -> pcs s t = BC_tail k ->
                      end)).
 Proof.
   intros HI Hpc. inv_pc HI t Hpc.
-  apply pc_only; auto; rewrite ?Hpc; unfold head_bar, head_nb, head_wt;
-    destruct (lst s) as [|x l]; try destruct (i_bar x) eqn:Eb; try destruct (Z.eqb_spec (i_wt x) 0);
-    cbn; try reflexivity; auto; intros _; auto.
+  destruct (lst s) as [|x l] eqn:Hl.
+  - pc_only_tac HI Hpc. auto.
+  - destruct (i_bar x) eqn:Eb.
+    + destruct (Z.eqb_spec (i_wt x) 0) as [Ew|Ew].
+      * pc_only_tac HI Hpc. auto.
+      * pc_only_tac HI Hpc. unfold head_bar, head_wt. rewrite Hl. auto.
+    + pc_only_tac HI Hpc. unfold head_nb. rewrite Hl. auto.
 Qed.
 
 Lemma room_bound W s r : 2 <= W <= 4094 -> ginv W s r -> nz (f_dq_state_has_sync_width_room (st s) W) = true ->
@@ -244,16 +283,18 @@ Proof.
   intros HI Hpc Hl. inv_pc HI t Hpc. destruct Hi as (B & D & O & P & N).
   pose proof HI as (HW & (r & G) & T).
   destruct (Z.ltb_spec 0 ow).
-  - apply pc_only; auto; rewrite ?Hpc; try reflexivity. intros _. cbn. repeat split; auto; lia.
-  - assert (ow = 0) by lia. subst ow.
+  - pc_only_tac HI Hpc. repeat split; auto; lia.
+  - assert (E0 : ow = 0) by lia. rewrite E0 in *. clear E0.
     destruct (Z.eqb_spec (i_wt x) 0) as [E|E]; cbn [negb].
-    + apply pc_only; auto; rewrite ?Hpc; try reflexivity. intros _. cbn. repeat split; auto.
+    + pc_only_tac HI Hpc. repeat split; auto.
     + destruct (nz (f_dq_state_has_sync_width_room (st s) W)) eqn:R.
-      * apply pc_only; auto; rewrite ?Hpc; try reflexivity. intros _. cbn.
+      * pc_only_tac HI Hpc.
         destruct (room_bound W s r HW G R) as [_ Bd]. pose proof (U_nonneg s).
         assert (0 <= (W - 1) * f_pb r) by (pose proof (g_wf _ _ _ G) as Wf; unfold wfr in Wf; nia).
-        repeat split; auto; try lia. unfold head_wt. rewrite Hl. exact E.
-      * apply pc_only; auto; rewrite ?Hpc; try reflexivity. intros _. cbn. repeat split; auto; try lia; intros; discriminate.
+        split; [exact B|]. split; [exact D|]. split; [exact P|]. split; [exact N|].
+        split; [unfold head_wt; rewrite Hl; exact E | lia].
+      * pc_only_tac HI Hpc. split; [exact B|]. split; [exact D|]. split; [lia|]. split; [exact P|].
+        split; [auto|]. split; [intros _; exact N | intros X; discriminate X].
 Qed.
 
 Lemma opform_facts W s op : opform W s op ->
@@ -274,8 +315,8 @@ Lemma step_W_tail W s t op : Inv W s -> pcs s t = W_tail op ->
 Proof.
   intros HI Hpc. inv_pc HI t Hpc.
   destruct (is_nil (lst s)).
-  - apply pc_only; auto; rewrite ?Hpc; try reflexivity. intros _. exact Hi.
-  - apply pc_only; auto; rewrite ?Hpc; try reflexivity. intros _. cbn.
+  - pc_only_tac HI Hpc. exact Hi.
+  - pc_only_tac HI Hpc.
     destruct (opform_facts W s op Hi) as [E [[Bm Ib]|(Bm & Ib & Wd & P)]]; rewrite Ib; split; auto.
 Qed.
 
@@ -311,34 +352,36 @@ Proof.
     + assert (Bm : bmode s = true).
       { destruct D as [[Bm _]|(Bm & Ow & _)]; [exact Bm|]. exfalso. apply (NB (dw s) Dr). congruence. }
       destruct (Z.eqb_spec (i_wt x) 0) as [Ew|Ew]; cbn [negb].
-      * apply pc_only; auto; rewrite ?Hpc; try reflexivity. intros _. cbn. auto.
-      * apply pc_only; auto; rewrite ?Hpc, ?E; try reflexivity. intros _. cbn. rewrite E.
-        repeat split; auto. unfold head_wt. rewrite Hl. exact Ew.
-    + apply pc_only; auto; rewrite ?Hpc; try reflexivity. intros _. cbn.
-      destruct D as [[_ Ow]|(Bm & Ow & P)]; [contradiction|]. repeat split; auto.
+      * pc_only_tac HI Hpc. auto.
+      * apply pc_only;
+          [ exact HI | rewrite Hpc; reflexivity | rewrite Hpc; reflexivity
+          | rewrite Hpc, E; reflexivity | rewrite Hpc; intros X; discriminate X | intros _; cbn [pcinv] ].
+        rewrite E. split; [exact Bm|]. split; [auto|]. split; [exact Hb|]. unfold head_wt. rewrite Hl. exact Ew.
+    + pc_only_tac HI Hpc.
+      destruct D as [[_ Ow]|(Bm & Ow & P)]; [contradiction|]. auto.
   - assert (Hn : head_nb s) by (unfold head_nb; rewrite Hl; exact Eb).
     pose proof (pb_head W s r G Hn) as P0.
     destruct ((owned =? 0) && negb (i_wt x =? 0) && negb (nz (f_dq_state_has_sync_width_room (st s) W))) eqn:C.
     + apply andb_true_iff in C as [C _]. apply andb_true_iff in C as [C _]. apply Z.eqb_eq in C. subst owned.
-      apply pc_only; auto; rewrite ?Hpc; try reflexivity. intros _. cbn. rewrite E.
+      pc_only_tac HI Hpc. rewrite E.
       destruct D as [[_ Ow]|(Bm & Ow & P)]; [unfold IN_BARRIER in Ow; discriminate|].
       exists 0, 0. split; [unfold ENQUEUED, INTERVAL, IN_BARRIER; lia|]. split; [lia|]. right.
-      assert (dw s = 0) by (unfold INTERVAL in Ow; lia). repeat split; auto.
+      assert (dw s = 0) by (unfold INTERVAL in Ow; lia). auto.
     + destruct (Z.eqb_spec owned IN_BARRIER) as [Eo|Eo].
-      * apply pc_only; auto; rewrite ?Hpc; try reflexivity. intros _. cbn.
+      * pc_only_tac HI Hpc.
         destruct D as [[Bm _]|(Bm & Ow & _)]; [auto|]. exfalso. apply (NB (dw s) Dr). congruence.
       * destruct D as [[_ Ow]|(Bm & Ow & P)]; [contradiction|].
         destruct (Z.eqb_spec owned 0) as [E0|E0].
         -- assert (D0 : dw s = 0) by (unfold INTERVAL in Ow; lia).
            destruct (Z.eqb_spec (i_wt x) 0) as [Ew|Ew]; cbn [negb].
-           ++ apply pc_only; auto; rewrite ?Hpc; try reflexivity. intros _. cbn. repeat split; auto.
+           ++ pc_only_tac HI Hpc. auto.
            ++ cbn [negb andb] in C. apply negb_false_iff in C.
               destruct (room_bound W s r HW G C) as [_ Bd]. pose proof (U_nonneg s).
               assert (0 <= (W - 1) * f_pb r) by (pose proof (g_wf _ _ _ G) as Wf; unfold wfr in Wf; nia).
-              apply pc_only; auto; rewrite ?Hpc; try reflexivity. intros _. cbn. repeat split; auto; try lia.
-              unfold head_wt. rewrite Hl. exact Ew.
-        -- apply pc_only; auto; rewrite ?Hpc; try reflexivity. intros _. cbn. repeat split; auto.
-           unfold INTERVAL in *. lia.
+              pc_only_tac HI Hpc. split; [exact E|]. split; [exact Bm|]. split; [exact D0|]. split; [exact P0|].
+              split; [exact Hn|]. split; [unfold head_wt; rewrite Hl; exact Ew | lia].
+        -- pc_only_tac HI Hpc. split; [exact E|]. split; [exact Bm|]. split; [exact Ow|].
+           split; [unfold INTERVAL in *; lia | auto].
 Qed.
 
 Lemma step_W_next W s t op owned : Inv W s -> pcs s t = W_next op owned ->
@@ -350,7 +393,7 @@ Proof.
   intros HI Hpc. inv_pc HI t Hpc. destruct Hi as (E & D).
   pose proof HI as (HW & (r & G) & T). pose proof (dw_range W s r G) as Dr.
   destruct (is_nil (lst s)).
-  - apply pc_only; auto; rewrite ?Hpc; try reflexivity. intros _. cbn. rewrite E.
+  - pc_only_tac HI Hpc. rewrite E.
     destruct D as [[Bm Ow]|(Bm & Ow & P)].
     + subst owned. rewrite Z.eqb_refl. rewrite (u64_id'' (W * INTERVAL)) by (unfold INTERVAL; lia).
       rewrite u64_id'' by (unfold IN_BARRIER, INTERVAL; lia).
@@ -362,7 +405,7 @@ Proof.
       exists (dw s), 0. split.
       * subst owned. unfold INTERVAL. rewrite lor_enq_hi by lia. unfold IN_BARRIER. lia.
       * split; [lia|]. right. auto.
-  - apply pc_only; auto; rewrite ?Hpc; try reflexivity. intros _. cbn. auto.
+  - pc_only_tac HI Hpc. auto.
 Qed.
 
 (* ---- callouts and wake-ups: only the history / the thread events change ---- *)
@@ -378,7 +421,16 @@ Proof.
   - intros H. apply (same1_pcinv W s s1 _ S). auto.
 Qed.
 
-Ltac same1_tac := unfold same1; cbn; repeat split; reflexivity.
+Ltac same1_tac := unfold same1; gcbn; repeat split; reflexivity.
+Ltac step_log_tac HI Hpc :=
+  eapply step_log;
+  [ exact HI
+  | same1_tac
+  | rewrite Hpc; reflexivity
+  | rewrite Hpc; reflexivity
+  | rewrite Hpc; reflexivity
+  | rewrite Hpc; cbn [waitpc ret_waits after dn_cont]; try (intros X; exact X); try discriminate; auto
+  | try (intros X; discriminate X); intros _; cbn [pcinv] ].
 
 Lemma step_callouts W s t s' : Inv W s ->
   (exists i, pcs s t = R_call i /\ s' = set_pc (set_started s (i :: started s)) t (R_incall i)) \/
@@ -390,13 +442,12 @@ Lemma step_callouts W s t s' : Inv W s ->
   Inv W s'.
 Proof.
   intros HI [(i & Hpc & ->)|[(i & Hpc & ->)|[(i & Hpc & ->)|[(i & Hpc & ->)|[(op & i & Hpc & ->)|(op & i & Hpc & ->)]]]]].
-  - apply (step_log W s); auto; [same1_tac|..]; rewrite ?Hpc; try reflexivity; try discriminate.
-  - apply (step_log W s); auto; [same1_tac|..]; rewrite ?Hpc; try reflexivity; try discriminate.
-  - inv_pc HI t Hpc. apply (step_log W s); auto; [same1_tac|..]; rewrite ?Hpc; try reflexivity; auto.
-  - inv_pc HI t Hpc. apply (step_log W s); auto; [same1_tac|..]; rewrite ?Hpc; try reflexivity; auto.
-  - inv_pc HI t Hpc. apply (step_log W s); auto; [same1_tac|..]; rewrite ?Hpc; try reflexivity; auto.
-  - inv_pc HI t Hpc. apply (step_log W s); auto; [same1_tac|..]; rewrite ?Hpc; try reflexivity; auto.
-    intros _. cbn. destruct Hi. auto.
+  - step_log_tac HI Hpc.
+  - step_log_tac HI Hpc.
+  - inv_pc HI t Hpc. step_log_tac HI Hpc. exact Hi.
+  - inv_pc HI t Hpc. step_log_tac HI Hpc. exact Hi.
+  - inv_pc HI t Hpc. step_log_tac HI Hpc. exact Hi.
+  - inv_pc HI t Hpc. step_log_tac HI Hpc. destruct Hi. auto.
 Qed.
 
 Lemma step_wakes W s t s' : Inv W s ->
@@ -406,12 +457,124 @@ Lemma step_wakes W s t s' : Inv W s ->
   Inv W s'.
 Proof.
   intros HI [(k & u & Hpc & ->)|[(k & ow & u & nx & Hpc & ->)|(op & owned & u & Hpc & ->)]].
-  - apply (step_log W s); auto; [same1_tac|..]; rewrite ?Hpc; destruct k; cbn; try reflexivity; try discriminate; auto.
+  - destruct k; step_log_tac HI Hpc.
   - inv_pc HI t Hpc. destruct Hi as (B & D & O & P & N & N1 & N2).
-    apply (step_log W s); auto; [same1_tac|..]; rewrite ?Hpc; unfold dn_cont; destruct (Z.eqb_spec nx 1); cbn; try reflexivity; auto.
-    + intros _. repeat split; auto.
-    + intros _. repeat split; auto.
+    unfold dn_cont. destruct (Z.eqb_spec nx 1).
+    + step_log_tac HI Hpc. repeat split; auto.
+    + step_log_tac HI Hpc. repeat split; auto.
   - inv_pc HI t Hpc. destruct Hi as (E & B & O & P).
-    apply (step_log W s); auto; [same1_tac|..]; rewrite ?Hpc; try reflexivity; auto.
-    intros _. cbn. split; [exact E|]. right. repeat split; auto. intros X. rewrite P in X. discriminate.
+    step_log_tac HI Hpc. split; [exact E|]. right. repeat split; auto. intros X. rewrite P in X. discriminate.
 Qed.
+
+(* ---- a thread u that does not move, when thread t makes a step ---- *)
+Lemma not_waiting_grant W s t : thread_inv W s t -> waitpc (pcs s t) = false -> grant s t = GNone.
+Proof.
+  intros [_ _ _ T4 _ _] H. destruct (grant s t) eqn:E; auto; exfalso;
+    assert (X : waitpc (pcs s t) = true) by (apply T4; discriminate); congruence.
+Qed.
+
+Definition stable_for_owner (s s' : gst) (t : Z) : Prop :=
+  bmode s' = bmode s /\ dw s' = dw s /\ pb s' = pb s /\ (U s' <= U s \/ U s' <= 4095) /\
+  (lst s' = lst s \/ exists x, lst s' = lst s ++ [x] /\ (i_wt x = 0 \/ i_wt x = t)) /\
+  (forall v, v <> t -> pcs s' v = pcs s v /\ grant s' v = grant s v) /\
+  (grant s t = GNone -> waitpc (pcs s t) = true -> grant s' t = GNone /\ waitpc (pcs s' t) = true) /\
+  (In t (waiters (lst s')) -> In t (waiters (lst s)) \/ waitpc (pcs s t) = false).
+
+Lemma other_thread W s s' t u :
+  u <> t -> (forall v, thread_inv W s v) ->
+  pcs s' u = pcs s u -> grant s' u = grant s u ->
+  (In u (holders s') <-> In u (holders s)) ->
+  (lockh s' = Some u <-> lockh s = Some u) ->
+  (tokh s' = Some u <-> tokh s = Some u) ->
+  (forall v, lockh s = Some v -> v <> t -> stable_for_owner s s' t) ->
+  thread_inv W s' u.
+Proof.
+  intros Ne T Hp Hg Hh Hl Hk Hst. destruct (T u) as [T1 T2 T3 T4 T5 T6].
+  constructor; rewrite ?Hp, ?Hg, ?Hh, ?Hl, ?Hk; try assumption.
+  { intros X. assert (Lu : lockh s = Some u) by (apply T2; auto).
+    destruct (Hst u Lu Ne) as (Eb & _). rewrite Eb. auto. }
+  intros Ow. specialize (T6 Ow).
+  assert (Lu : lockh s = Some u) by (apply T2; auto).
+  destruct (Hst u Lu Ne) as (Eb & Ed & Ep & HU & Hlst & Hv & Ht & Hw).
+  - eapply (pcinv_stable W s); try eassumption.
+    + destruct Hlst as [E|(x & E & _)]; [left; exact E | right; exists x; exact E].
+    + intros v Gv Wv. destruct (Z.eq_dec v t) as [->|Nv]; [auto|]. destruct (Hv v Nv) as [-> ->]. auto.
+    + intros v Hin. destruct Hlst as [E|(x & E & Hx)]; [left; rewrite <- E; exact Hin|].
+      rewrite E, waiters_app in Hin. apply in_app_or in Hin as [Hin|Hin]; [left; exact Hin|].
+      destruct (Z.eqb_spec (i_wt x) 0) as [E0|E0]; [destruct Hin|]. destruct Hin as [<-|[]].
+      destruct Hx as [Hx|Hx]; [contradiction|]. rewrite Hx in *.
+      apply Hw. rewrite E, waiters_app. apply in_or_app. right.
+      destruct (Z.eqb_spec (i_wt x) 0); [congruence|]. left. exact Hx.
+Qed.
+
+(* ---- shared tactics for the steps that change the state word ---- *)
+Ltac fcbn := cbn [mk set_wq set_d set_enq1 locked_bar released unbar oprec
+                  f_owner f_tr f_enq f_mq f_ov f_role f_em f_d f_pb f_wq f_ib f_hi].
+Ltac fcbn_in H := cbn [mk set_wq set_d set_enq1 locked_bar released unbar oprec
+                       f_owner f_tr f_enq f_mq f_ov f_role f_em f_d f_pb f_wq f_ib f_hi] in H.
+
+Lemma pb_st s r : st s = enc r -> wfr r -> pb s = f_pb r.
+Proof. intros E Wf. unfold pb. rewrite E, dec_enc by exact Wf. reflexivity. Qed.
+
+Lemma g_wt_setpc s t p' (l : list item) (g : Z -> grantst) :
+  (forall x, In x l -> i_wt x <> 0 -> valid_tid (i_wt x) /\ g (i_wt x) = GNone /\ waitpc (pcs s (i_wt x)) = true) ->
+  (waitpc (pcs s t) = true -> waitpc p' = true) ->
+  forall x, In x l -> i_wt x <> 0 ->
+  valid_tid (i_wt x) /\ g (i_wt x) = GNone /\ waitpc (upd (pcs s) t p' (i_wt x)) = true.
+Proof.
+  intros H Hw x Hx Nx. destruct (H x Hx Nx) as (V & Gn & Wp). split; [exact V|]. split; [exact Gn|].
+  unfold upd. destruct (Z.eqb_spec (i_wt x) t) as [E|]; [rewrite E in Wp; auto | exact Wp].
+Qed.
+
+Lemma in_cons_other (u t : Z) l : u <> t -> (In u (t :: l) <-> In u l).
+Proof. intros Ne. cbn [In]. split; [intros [X|X]; [congruence|exact X] | intros X; right; exact X]. Qed.
+
+Lemma U_cons_h s s' t : holders s' = t :: holders s -> rq s' = rq s -> U s' = U s + 1.
+Proof. intros E1 E2. unfold U. rewrite E1, E2. cbn [length]. lia. Qed.
+
+Lemma pb_eq s s' r r' : st s = enc r -> wfr r -> st s' = enc r' -> wfr r' -> f_pb r' = f_pb r -> pb s' = pb s.
+Proof. intros E W E' W' H. rewrite (pb_st s r E W), (pb_st s' r' E' W'). exact H. Qed.
+
+(* the lock owner moves: nobody else has owner's knowledge to preserve *)
+Lemma other_thread_owner W s s' t u :
+  u <> t -> (forall v, thread_inv W s v) -> lockh s = Some t ->
+  pcs s' u = pcs s u -> grant s' u = grant s u ->
+  (In u (holders s') <-> In u (holders s)) ->
+  lockh s' <> Some u ->
+  (tokh s' = Some u <-> tokh s = Some u) ->
+  thread_inv W s' u.
+Proof.
+  intros Ne T Lt Hp Hg Hh Hl Hk. apply (other_thread W s s' t u Ne T Hp Hg Hh); [|exact Hk|].
+  - split; [intros X; contradiction | intros X; congruence].
+  - intros v Lv Nv. congruence.
+Qed.
+
+(* nobody holds the lock: likewise *)
+Lemma other_thread_free W s s' t u :
+  u <> t -> (forall v, thread_inv W s v) -> lockh s = None ->
+  pcs s' u = pcs s u -> grant s' u = grant s u ->
+  (In u (holders s') <-> In u (holders s)) ->
+  lockh s' <> Some u ->
+  (tokh s' = Some u <-> tokh s = Some u) ->
+  thread_inv W s' u.
+Proof.
+  intros Ne T Lt Hp Hg Hh Hl Hk. apply (other_thread W s s' t u Ne T Hp Hg Hh); [|exact Hk|].
+  - split; [intros X; contradiction | intros X; congruence].
+  - intros v Lv Nv. congruence.
+Qed.
+
+Lemma merged_zero r : wfr r -> merged r 0 = r.
+Proof. intros W. unfold wfr in W. unfold merged. destruct (Z.ltb_spec (f_mq r) 0); [lia|reflexivity]. Qed.
+
+Lemma NoDup_app_singleton (l : list Z) x : NoDup l -> ~ In x l -> NoDup (l ++ [x]).
+Proof.
+  intros Nd Ni. induction Nd as [|y l Hy Hl IH]; cbn; [constructor; [intros []|constructor]|].
+  constructor.
+  - intros X. apply in_app_or in X as [X|[X|[]]]; [contradiction|]. subst. apply Ni. left. reflexivity.
+  - apply IH. intros X. apply Ni. right. exact X.
+Qed.
+Lemma head_bar_app' s s2 x : lst s2 = lst s ++ [x] -> head_bar s -> head_bar s2.
+Proof. intros E2. unfold head_bar. rewrite E2. destruct (lst s); cbn; tauto. Qed.
+
+(* pb of a state whose word was just written *)
+Ltac pb_now r' Wn := match goal with |- context [pb ?s2] => rewrite (pb_st s2 r' eq_refl Wn) end.
